@@ -435,6 +435,13 @@ func (t *tr) makeSlice(c *ast.CallExpr) (string, bool) {
 	if len(c.Args) == 2 && ty == "[]uint" {
 		return "", false // (the older translation of make([]uint, n) applies)
 	}
+	if bl, ok := c.Args[1].(*ast.BasicLit); ok && bl.Value == "0" && len(c.Args) == 3 {
+		// make([]T, 0, c): the empty slice (the capacity is invisible; a signed c must be non-negative)
+		if t.typeOf(c.Args[2]) == "int" {
+			t.addGuard("(0 ≤ (" + t.argExpr(c.Args[2]) + " : Int))")
+		}
+		return zeroOf(ty), true
+	}
 	if len(c.Args) == 3 && src(c.Args[1]) != src(c.Args[2]) {
 		return "", false
 	}
